@@ -36,6 +36,15 @@ DEFAULT_PROFILE = {
     "p_optional_operand": 0.0,
 }
 
+# focused scenario profiles (swarm style): overrides mixed into a check's profile on a fraction of
+# its runs, so that rare conjunctions of features are reached within the quick budget
+FOCUS = {
+    # several interruptible (variable-duration) tasks queued on one worker whose work is interrupted
+    "interrupted": dict(n_tasks=(2, 3), p_variable=0.85, p_zero=0.0, p_optional=0.15, n_workers=(1, 1), p_cumulative=0.0, p_select=0.0,
+                        p_assign=1.0, p_dynamic=0.0, p_delayed=0.0, p_work=0.0, p_release=0.1, p_due=0.1, p_horizon=0.9, slack=(3, 8),
+                        constraints=["ResourceInterrupted", "ResourceInterrupted", "ResourcePeriodicallyInterrupted"], n_constraints=(1, 2)),
+}
+
 TASK_CONSTRAINT_KINDS = ["TaskStartAt", "TaskStartAfter", "TaskEndAt", "TaskEndBefore", "TaskPrecedence", "TasksStartSynced",
                          "TasksEndSynced", "TasksDontOverlap", "TasksContiguous", "UnorderedTaskGroup", "OrderedTaskGroup",
                          "ScheduleNTasksInTimeIntervals"]
